@@ -6,6 +6,7 @@ what the model returns is what testing every triangle returns, by these theorems
 -/
 import TrimeshVerif.Proofs.Query
 import TrimeshVerif.Proofs.QueryPrune
+import TrimeshVerif.Generated.C12Bary
 namespace TV.C12
 open TV.Query
 
@@ -100,5 +101,41 @@ theorem C12_nearby_complete (p : P) (ts : List Tri) (hnd : ∀ t ∈ ts, NonDeg 
     (i : Nat) (q : P) (d : Rat) (h : closestOnMesh p ts = some (i, q, d)) :
     i ∈ nearbyFaces p r ts :=
   nearby_complete p ts hnd r hr t' ht' hcorner i q d h
+
+
+/-! ### (G) the inclusion test of the source: `points_to_barycentric` traced (Generated/C12Bary.lean) -/
+
+section bary
+open TV.Generated.C12
+
+/-- (G) **the barycentric weights the code computes (Cramer's rule, traced from the source) are the ones of the
+    model's inclusion test**: same denominator, same numerators, for every triangle and point -/
+theorem C12_barycentric_of_source (a1 a2 a3 b1 b2 b3 c1 c2 c3 p1 p2 p3 : Rat)
+    (hd : cramerDen a1 a2 a3 b1 b2 b3 c1 c2 c3 p1 p2 p3 ≠ 0) :
+    baryCramer ((a1, a2, a3), (b1, b2, b3), (c1, c2, c3)) (p1, p2, p3) =
+      some (cramerNum1 a1 a2 a3 b1 b2 b3 c1 c2 c3 p1 p2 p3 / cramerDen a1 a2 a3 b1 b2 b3 c1 c2 c3 p1 p2 p3,
+            cramerNum2 a1 a2 a3 b1 b2 b3 c1 c2 c3 p1 p2 p3 / cramerDen a1 a2 a3 b1 b2 b3 c1 c2 c3 p1 p2 p3) := by
+  have e : dot (sub (b1, b2, b3) (a1, a2, a3)) (sub (b1, b2, b3) (a1, a2, a3)) *
+        dot (sub (c1, c2, c3) (a1, a2, a3)) (sub (c1, c2, c3) (a1, a2, a3)) -
+      dot (sub (b1, b2, b3) (a1, a2, a3)) (sub (c1, c2, c3) (a1, a2, a3)) *
+        dot (sub (b1, b2, b3) (a1, a2, a3)) (sub (c1, c2, c3) (a1, a2, a3))
+      = cramerDen a1 a2 a3 b1 b2 b3 c1 c2 c3 p1 p2 p3 := by
+    simp only [dot, sub, cramerDen]; ring
+  unfold baryCramer
+  simp only [e, hd, if_false, Option.some.injEq, Prod.mk.injEq]
+  constructor
+  · congr 1; simp only [dot, sub, cramerNum1]; ring
+  · congr 1; simp only [dot, sub, cramerNum2]; ring
+
+/-- (G) the two methods of `points_to_barycentric` (`cramer`, `cross`) compute the same weights wherever both are
+    defined (Lagrange's identity between their denominators) -/
+theorem C12_barycentric_methods_agree (a1 a2 a3 b1 b2 b3 c1 c2 c3 p1 p2 p3 : Rat) :
+    cramerNum1 a1 a2 a3 b1 b2 b3 c1 c2 c3 p1 p2 p3 * crossDen a1 a2 a3 b1 b2 b3 c1 c2 c3 p1 p2 p3 =
+      crossNum1 a1 a2 a3 b1 b2 b3 c1 c2 c3 p1 p2 p3 * cramerDen a1 a2 a3 b1 b2 b3 c1 c2 c3 p1 p2 p3 ∧
+    cramerNum2 a1 a2 a3 b1 b2 b3 c1 c2 c3 p1 p2 p3 * crossDen a1 a2 a3 b1 b2 b3 c1 c2 c3 p1 p2 p3 =
+      crossNum2 a1 a2 a3 b1 b2 b3 c1 c2 c3 p1 p2 p3 * cramerDen a1 a2 a3 b1 b2 b3 c1 c2 c3 p1 p2 p3 := by
+  constructor <;> simp only [cramerNum1, cramerNum2, cramerDen, crossNum1, crossNum2, crossDen] <;> ring
+
+end bary
 
 end TV.C12
